@@ -265,6 +265,7 @@ func runC01(r *Run) {
 		}
 		addEval(r, &c, "nested-quantifiers")
 	}
+	c03FullyEvaluatedChains(r) // long flat chains are expressions of the language like any other
 	c01IfaceListBoundaries(r)
 	c01IfaceListRuns(r)
 	collidingJoins(r, "colliding-joins")
@@ -568,6 +569,7 @@ func runC03(r *Run) {
 	c03Siblings(r, n)
 	c03VeryLongChain(r)
 	c03FullyEvaluatedChains(r)
+	c03ReusedAcrossKinds(r)
 	c03MatchPairs(r)
 }
 
@@ -617,6 +619,7 @@ func c04KeywordPrefixed(r *Run) {
 
 func runC04(r *Run) {
 	c04KeywordPrefixed(r)
+	c04HugeSubjects(r)
 	r.Rule = "(selector, literal, datum) triples from the leaf-aware generator with 25% absent selectors, nil values, non-collection targets and ill-typed literals; for each of the four operator pairs and both in/contains spellings: predicate on the implementation: the negative form returns the negation of the positive form when that is not an error and an error exactly when it is; `S contains v` and `v in S` give equal trees and equal outcomes; `not (positive)` equals the negative form; all forms are also compared with the model; distinct = (pair, outcome of the positive form, leaf kind)"
 	n := 2000
 	if r.Tier == "thorough" {
